@@ -9,16 +9,44 @@ import sys, os, array
 from vlib import gen, core
 
 MEMCHECK_SAMPLE = 4
-RULE = ("case = one history of 50 random operations over a backing memory of 0..64 bytes of kind "
-        "bytearray / array.array('B','h','i','d') / ffi.new: buffer(p,k) windows, len, index "
-        "(incl. negative and out of range), slices with arbitrary/negative/missing bounds, item and "
-        "slice assignment from bytes/bytearray/memoryview/another ffi.buffer (disjoint or "
-        "overlapping the target) with right and wrong lengths, comparisons, from_buffer('T[]') "
-        "length/aliasing, fixed T[N] on too-small objects, require_writable, memmove between all "
-        "combinations of cdata and Python buffers at every overlap offset; distinct = (memory "
+RULE = ("case = one history of 50 random operations over a backing memory of 0..64 bytes "
+        "(8%: 100..9000 bytes) of kind "
+        "bytearray / array.array('B','h','i','d') / ffi.new('char[]' | 'unsigned char[N]' | 'short[]' | "
+        "'int[]' | 'long long[]' | 'struct[]'), driven through the two FFI entry points (cffi.FFI and "
+        "_cffi_backend.FFI, positional and keyword calls): buffer(p,k) windows over char/typed/void "
+        "pointers, buffer(p) default sizes (arrays, pointers, from_buffer arrays, variable-sized "
+        "structs, void*/primitive rejected), len, index (incl. negative, out of range, __index__ "
+        "objects, non-integers), iteration, memoryview export, slices with arbitrary/negative/missing "
+        "bounds, extended slices (step != 1: model result or TypeError), item and slice assignment "
+        "from bytes/bytearray/memoryview/array.array with multi-byte items/another ffi.buffer or "
+        "memoryview or from_buffer alias (disjoint or overlapping the target) with right and wrong "
+        "lengths (byte length vs item count), wrong item values, non-buffer sources, del, comparisons "
+        "with bytes/bytearray/memoryview/array in both operand orders and with non-buffers, "
+        "from_buffer('T[]' | 'T[][M]' | 'T *') over whole objects and offset windows (memoryview "
+        "slices, ffi.buffer windows) length/aliasing, fixed T[N] / T[N][M] on too-small objects, "
+        "require_writable on writable and read-only objects, export pinned while the cdata lives, "
+        "memmove between all combinations of char/typed cdata and Python buffers at every overlap "
+        "offset, negative n, read-only destinations, invalid operands; distinct = (memory "
         "kind, size, op, args); non-trivial = any op except len()")
 ASSUMPTIONS = ["buffer[i] returns a 1-byte bytes object (cffi's documented element type), everything else follows bytearray slice semantics",
-               "sources of slice assignment are the kinds the statement lists (objects with the buffer interface); a cdata source is outside the class"]
+               "sources of slice assignment are the kinds the statement lists (objects with the buffer interface); a cdata source is outside the class",
+               "extended slices (step != 1) are not supported by ffi.buffer: raising TypeError (memory unchanged) is accepted, any other outcome must equal the bytearray model",
+               "buffer[i] = <int | 1-byte bytearray/memoryview> may raise TypeError or store that byte; bytes of another length must be rejected (length-preserving)",
+               "ffi.buffer(p) without a size is the documented default: whole array / pointed-to item / allocated size of a variable-sized struct",
+               "sizes of C types are those of the x86-64 SysV ABI (short 2, int 4, long long 8, double 8)"]
+
+CDEF = ("struct c19_t3 { char a[3]; };"             # size 3
+        "struct c19_t12 { int a[3]; };"             # size 12
+        "struct c19_s { int a; char b; };"          # size 8
+        "struct c19_vc { int n; char d[]; };"       # offsetof(d) 4, item 1, sizeof 4
+        "struct c19_vi { char c; int d[]; };")      # offsetof(d) 4, item 4, sizeof 4
+SIZES = {'char': 1, 'unsigned char': 1, 'signed char': 1, '_Bool': 1, 'short': 2, 'unsigned short': 2,
+         'int': 4, 'float': 4, 'double': 8, 'long long': 8, 'struct c19_s': 8,
+         'struct c19_t3': 3, 'struct c19_t12': 12}
+TYPES = sorted(SIZES)
+CDATA_KINDS = {'cdata': ('char[]', 1), 'cdata_uchar_fixed': (None, 1), 'cdata_short': ('short[]', 2),
+               'cdata_int': ('int[]', 4), 'cdata_ll': ('long long[]', 8),
+               'cdata_struct': ('struct c19_s[]', 8)}
 
 
 def generate(ctx):
@@ -31,17 +59,39 @@ def generate(ctx):
 
 def child_setup(setup, wd):
     from cffi import FFI
-    return {'ffi': FFI()}
+    import _cffi_backend
+    ffi = FFI()
+    ffi.cdef(CDEF)
+    # the C-level FFI class (what compiled modules use) is the second entry point;
+    # its from_buffer / memmove / buffer are separate argument parsers in ffi_obj.c
+    return {'ffi': ffi, 'ffi2': _cffi_backend.FFI()}
+
+
+class Idx(object):
+    def __init__(self, v):
+        self.v = v
+
+    def __index__(self):
+        return self.v
 
 
 class H(object):
-    def __init__(self, ffi, rnd, rep, seed):
+    def __init__(self, ffi, rnd, rep, seed, ffi2=None):
         self.ffi, self.rnd, self.rep, self.seed = ffi, rnd, rep, seed
+        self.ffi2 = ffi2 or ffi
         self.kind = rnd.choice(['bytearray', 'bytearray', 'arrayB', 'arrayh', 'arrayi', 'arrayd',
-                                'cdata', 'cdata'])
+                                'cdata', 'cdata', 'cdata_uchar_fixed', 'cdata_short', 'cdata_int',
+                                'cdata_ll', 'cdata_struct'])
         unit = {'arrayh': 2, 'arrayi': 4, 'arrayd': 8}.get(self.kind, 1)
+        if self.kind in CDATA_KINDS:
+            unit = CDATA_KINDS[self.kind][1]
         self.N = rnd.choice([0, 1, 2, 3, 5, 8, 13, 16, 31, 64]) // unit * unit
-        init = bytes(rnd.getrandbits(8) for _ in range(self.N))
+        if rnd.random() < 0.08:
+            # a few large memories: copies beyond any small-size special case / page boundary
+            self.N = rnd.choice([100, 257, 1000, 4099, 9000]) // unit * unit
+            rep.stat('large_memory')
+        self.OT = max(80, self.N + 16)
+        init = rnd.randbytes(self.N)
         if self.kind == 'bytearray':
             self.obj = bytearray(init)
             self.c = ffi.from_buffer(self.obj)
@@ -51,12 +101,21 @@ class H(object):
             self.c = ffi.from_buffer(self.obj)
         else:
             self.obj = None
-            self.c = ffi.new('char[]', self.N)
+            tp, unit = CDATA_KINDS[self.kind]
+            if tp is None:
+                self.c = ffi.new('unsigned char[%d]' % self.N)
+            else:
+                self.c = ffi.new(tp, self.N // unit)
             if self.N:
-                ffi.buffer(self.c)[:] = init
+                ffi.buffer(self.c, self.N)[:] = init
+        self.is_cdata = self.obj is None
+        self.cbase = ffi.cast('char *', self.c)
         self.model = bytearray(init)
-        self.other = ffi.new('char[]', 80)      # independent memory
-        ffi.buffer(self.other)[:] = bytes(rnd.getrandbits(8) for _ in range(80))
+        # views created once and observed for the whole history
+        self.live = ffi.buffer(self.cbase, self.N)
+        self.live_mv = memoryview(ffi.buffer(self.cbase, self.N))
+        self.other = ffi.new('char[]', self.OT)      # independent memory
+        ffi.buffer(self.other)[:] = rnd.randbytes(self.OT)
         self.oplog = []
 
     def desc(self):
@@ -76,12 +135,19 @@ class H(object):
     def check_mem(self, what):
         r = self.real()
         if r != bytes(self.model):
-            diff = [i for i in range(self.N) if r[i] != self.model[i]]
-            self.bad('memory-differs-from-model', 'after %s memory differs at %r: real %s model %s'
-                     % (what, diff[:10], r.hex(), bytes(self.model).hex()))
-            self.model[:] = r
+            diff = [i for i in range(min(len(r), self.N)) if r[i] != self.model[i]]
+            lo = max(0, diff[0] - 8) if diff and self.N > 64 else 0
+            hi = lo + 64
+            self.bad('memory-differs-from-model', 'after %s memory differs at %r: bytes [%d:%d] real %s '
+                     'model %s' % (what, diff[:10], lo, min(hi, self.N), r[lo:hi].hex(),
+                                   bytes(self.model[lo:hi]).hex()))
+            if len(r) == self.N:
+                self.model[:] = r
         if bytes(self.ffi.buffer(self.c, self.N)) != r:
             self.bad('buffer-not-live', 'ffi.buffer view differs from the object after %s' % what)
+        if self.live[:] != r or self.live_mv.tobytes() != r:
+            self.bad('buffer-not-live', 'the ffi.buffer view created at the start of the history '
+                     'differs from the object after %s' % what)
 
     def window(self):
         rnd = self.rnd
@@ -97,10 +163,54 @@ class H(object):
             return self.rnd.randint(-k - 3, k + 3)
         return self.rnd.choice([None, 2 ** 63 - 1, -2 ** 63, 2 ** 70, -2 ** 70, 0, k])
 
+    def ptr(self, F, off):
+        """a pointer cdata to byte `off` of the memory, of a random pointer type
+        (buffer sizes and memmove counts are always bytes, whatever the type)"""
+        T = self.rnd.choice(['char', 'char', 'unsigned char', 'short', 'int', 'double', 'void',
+                             'struct c19_s'])
+        if T == 'struct c19_s' and F is not self.ffi:
+            T = 'long long'
+        self.rep.stat('ptr_typed' if T not in ('char',) else 'ptr_char')
+        return F.cast(T + ' *', self.cbase + off)
+
+    def mkbuffer(self, F, off, k):
+        r = self.rnd.random()
+        p = self.ptr(F, off)
+        if r < 0.2:
+            self.rep.stat('buffer_keyword_call')
+            return F.buffer(cdata=p, size=k)
+        return F.buffer(p, k)
+
+    def pywindow(self, F, wo, wk, writable=True):
+        """a Python-level buffer object exporting exactly bytes [wo, wo+wk) of the memory;
+        returns (obj, kind)"""
+        rnd = self.rnd
+        kinds = ['buffer', 'mv_buffer']
+        if self.obj is not None:
+            kinds += ['mv_obj', 'mv_obj']
+            if wo == 0 and wk == self.N:
+                kinds += ['obj', 'obj', 'obj']
+        kind = rnd.choice(kinds)
+        if kind == 'obj':
+            o = self.obj
+            if rnd.random() < 0.3:
+                o, kind = memoryview(self.obj), 'mv_native'     # keeps the items' format / itemsize
+        elif kind == 'mv_obj':
+            o = memoryview(self.obj).cast('B')[wo:wo + wk]
+        elif kind == 'buffer':
+            o = F.buffer(self.cbase + wo, wk)
+        else:
+            o = memoryview(F.buffer(self.cbase + wo, wk))
+        if not writable:
+            o = memoryview(o).toreadonly()
+            kind = 'ro_' + kind
+        return o, kind
+
     def source(self, want, off, k, i0):
         """a source object of `want` bytes; returns (obj, expected bytes, kind)"""
         rnd, ffi = self.rnd, self.ffi
-        kind = rnd.choice(['bytes', 'bytearray', 'memoryview', 'otherbuf', 'overlapbuf'])
+        kind = rnd.choice(['bytes', 'bytearray', 'memoryview', 'otherbuf', 'overlapbuf', 'overlapbuf',
+                           'array_items', 'mv_items'])
         if kind == 'overlapbuf' and want <= self.N:
             so = rnd.randint(0, self.N - want)
             if rnd.random() < 0.7 and want:      # force a real overlap
@@ -108,37 +218,639 @@ class H(object):
                 hi = min(self.N - want, off + i0 + want - 1)
                 if lo <= hi:
                     so = rnd.randint(lo, hi)
-            src = ffi.buffer(self.c + so, want) if self.kind == 'cdata' else \
-                ffi.buffer(ffi.cast('char *', self.c) + so, want)
+            how = rnd.choice(['buffer', 'buffer', 'pywindow', 'frombuf'])
+            if how == 'buffer':
+                src = ffi.buffer(self.c + so, want) if self.kind == 'cdata' else \
+                    ffi.buffer(self.cbase + so, want)
+            elif how == 'pywindow':
+                src, pk = self.pywindow(ffi, so, want, writable=rnd.random() < 0.8)
+                kind = 'overlap_' + pk
+            else:
+                # a from_buffer alias of the same memory, exported again through ffi.buffer
+                al = ffi.from_buffer('unsigned char[]', ffi.buffer(self.cbase + so, want))
+                src = ffi.buffer(al)
+                kind = 'overlap_frombuf_alias'
             return src, bytes(self.model[so:so + want]), kind
         if kind in ('otherbuf', 'overlapbuf'):
-            so = rnd.randint(0, 80 - want) if want <= 80 else 0
-            want = min(want, 80)
+            so = rnd.randint(0, self.OT - want) if want <= self.OT else 0
+            want = min(want, self.OT)
             return ffi.buffer(self.other + so, want), bytes(ffi.buffer(self.other + so, want)), 'otherbuf'
-        data = bytes(rnd.getrandbits(8) for _ in range(want))
+        data = rnd.randbytes(want)
+        if kind in ('array_items', 'mv_items'):
+            # exporters whose len() counts items, not bytes
+            code = rnd.choice([c for c in 'HIQ' if want % array.array(c).itemsize == 0] or ['B'])
+            a = array.array(code)
+            a.frombytes(data)
+            if kind == 'mv_items':
+                return memoryview(a), data, 'mv_items_' + code
+            return a, data, 'array_items_' + code
         if kind == 'bytes':
             return data, data, kind
         if kind == 'bytearray':
             return bytearray(data), data, kind
         return memoryview(data), data, kind
 
+    # ------------------------------------------------------------------
+    def op_default_size(self, F, key):
+        """ffi.buffer(x) without a size: whole array / pointed-to item / allocated struct"""
+        rnd, ffi, m = self.rnd, self.ffi, self.model
+        shape = rnd.choice(['history', 'history', 'array', 'array_fixed', 'array2d', 'ptr', 'cast',
+                            'frombuf', 'frombuf_ptr', 'varstruct', 'structptr', 'voidptr', 'primitive'])
+        T = rnd.choice(TYPES)
+        sz = SIZES[T]
+        n = rnd.choice([0, 1, 2, 3, 7, 16])
+        content = None
+        if shape == 'history':
+            x, exp, content = self.c, self.N, bytes(m)
+        elif shape == 'array':
+            x, exp = ffi.new(T + '[]', n), n * sz
+            content = bytes(exp)
+        elif shape == 'array_fixed':
+            x, exp = ffi.new('%s[%d]' % (T, n)), n * sz
+        elif shape == 'array2d':
+            n2 = rnd.choice([1, 2, 5])
+            x, exp = ffi.new('%s[%d][%d]' % (T, n, n2)), n * n2 * sz
+        elif shape == 'ptr':
+            x, exp = ffi.new(T + ' *'), sz
+            content = bytes(sz)
+        elif shape == 'cast':
+            off = rnd.randint(0, self.N)
+            x, exp = ffi.cast(T + ' *', self.cbase + off), sz
+            if off + sz <= self.N:
+                content = bytes(m[off:off + sz])
+        elif shape == 'frombuf':
+            wo, wk = self.window()
+            src, _ = self.pywindow(ffi, wo, wk)
+            x, exp = ffi.from_buffer(T + '[]', src), wk // sz * sz
+            content = bytes(m[wo:wo + exp])
+        elif shape == 'frombuf_ptr':
+            wo, wk = self.window()
+            src, _ = self.pywindow(ffi, wo, wk)
+            x, exp = ffi.from_buffer(T + ' *', src), sz
+            if sz <= wk:
+                content = bytes(m[wo:wo + sz])
+        elif shape == 'varstruct':
+            if rnd.random() < 0.5:
+                x, exp = ffi.new('struct c19_vc *', [7, n]), max(4, 4 + n)
+            else:
+                x, exp = ffi.new('struct c19_vi *', [b'x', n]), max(4, 4 + 4 * n)
+        elif shape == 'structptr':
+            x, exp = ffi.new('struct c19_s *'), 8
+        elif shape == 'voidptr':
+            x, exp = ffi.cast('void *', self.cbase), None
+        else:
+            x, exp = ffi.cast(rnd.choice(['int', 'char', 'double', 'long long']), 65), None
+        key += (shape, T if shape not in ('history', 'varstruct', 'structptr', 'voidptr', 'primitive')
+                else '', n if shape in ('array', 'array_fixed', 'array2d', 'varstruct') else 0)
+        self.rep.stat('default_size_' + shape)
+        try:
+            b = F.buffer(x)
+            got = len(b)
+        except TypeError:
+            got = None
+        except Exception as e:
+            got = type(e).__name__
+        if got != exp:
+            self.bad('buffer-default-size', 'len(ffi.buffer(<%s %s n=%d>)) -> %r, expected %r'
+                     % (shape, T, n, got, exp))
+        elif exp is not None and content is not None and bytes(b) != content:
+            self.bad('buffer-default-size', 'ffi.buffer(<%s %s>) reads %s, expected %s' %
+                     (shape, T, bytes(b).hex(), content.hex()))
+        return key
+
+    def op_slice_step(self, b, off, k, key):
+        rnd, m = self.rnd, self.model
+        i, j = self.rand_idx(k), self.rand_idx(k)
+        s = rnd.choice([-3, -2, -1, -1, 2, 2, 3, 7, 0, 2 ** 63 - 1, -2 ** 63])
+        assign = rnd.random() < 0.5
+        key += (i, j, s, assign)
+        win = bytes(m[off:off + k])
+        if s == 0:
+            try:
+                if assign:
+                    b[i:j:s] = b''
+                else:
+                    b[i:j:s]
+                self.bad('slice-step', 'slice step 0 accepted')
+            except Exception:
+                pass
+            return key
+        ref = win[i:j:s]
+        if not assign:
+            self.rep.stat('slice_step_read')
+            try:
+                got = b[i:j:s]
+            except TypeError:
+                got = TypeError
+            except Exception as e:
+                got = type(e).__name__
+            if got is not TypeError and got != ref:
+                self.bad('slice-step', 'buffer[%r:%r:%r] (len %d) -> %r, model %r (TypeError is '
+                         'also accepted)' % (i, j, s, k, got, ref))
+            return key
+        wrong = rnd.random() < 0.3
+        data = rnd.randbytes(len(ref) + (rnd.choice([1, 2]) if wrong else 0))
+        self.rep.stat('slice_step_assign_wrong_length' if wrong else 'slice_step_assign')
+        try:
+            b[i:j:s] = data
+            res = 'ok'
+        except (TypeError, ValueError) as e:
+            res = type(e).__name__
+        except Exception as e:
+            res = type(e).__name__
+            self.bad('slice-step', 'buffer[%r:%r:%r] = <%d bytes> raised %s' % (i, j, s, len(data), res))
+        if res == 'ok':
+            if wrong:
+                self.bad('setslice-length-change-accepted', 'buffer[%r:%r:%r] = <%d bytes> accepted '
+                         'for an extended slice of %d bytes' % (i, j, s, len(data), len(ref)))
+            else:
+                w = bytearray(win)
+                w[i:j:s] = data
+                m[off:off + k] = w          # check_mem compares
+        return key
+
+    def op_setitem_bad(self, b, off, k, key):
+        rnd, m = self.rnd, self.model
+        i = rnd.randint(-k, k - 1) if k else 0
+        v = rnd.getrandbits(8)
+        what = rnd.choice(['empty', 'two', 'many', 'int', 'bytearray1', 'memoryview1', 'str', 'none',
+                           'delitem', 'delslice'])
+        key += (i, what)
+        self.rep.stat('setitem_bad_' + what)
+        if what in ('delitem', 'delslice'):
+            try:
+                if what == 'delitem':
+                    del b[i]
+                else:
+                    del b[i:self.rand_idx(k)]
+                self.bad('delete-accepted', 'del buffer[...] (%s) did not raise' % what)
+            except Exception:
+                pass
+            if len(b) != k:
+                self.bad('delete-accepted', 'len(buffer) changed from %d to %d after del' % (k, len(b)))
+            return key
+        val = {'empty': b'', 'two': bytes([v, v ^ 1]), 'many': bytes([v]) * rnd.randint(3, 40),
+               'int': v, 'bytearray1': bytearray([v]), 'memoryview1': memoryview(bytes([v])),
+               'str': 'a', 'none': None}[what]
+        try:
+            b[i] = val
+            res = 'ok'
+        except Exception as e:
+            res = type(e).__name__
+        if res == 'ok':
+            if what in ('int', 'bytearray1', 'memoryview1') and k:
+                m[off + (i % k)] = v           # accepted as "that byte"; check_mem compares
+            else:
+                self.bad('setitem-bad-value-accepted', 'buffer[%d] = %r (len %d) was accepted' %
+                         (i, val if what != 'many' else '<%d bytes>' % len(val), k))
+        return key
+
+    def op_views(self, b, off, k, key):
+        """other read paths of the same view: iteration (sq_item), contains, memoryview export,
+        index through __index__ objects, non-integer indices"""
+        rnd, m = self.rnd, self.model
+        win = bytes(m[off:off + k])
+        what = rnd.choice(['iter', 'memoryview', 'memoryview_write', 'index_obj', 'slice_obj',
+                           'bad_index', 'bytearray', 'reversed', 'keepalive'])
+        key += (what,)
+        self.rep.stat('view_' + what)
+        if what == 'iter':
+            got = list(b)
+            if got != [bytes([x]) for x in win]:
+                self.bad('iteration', 'list(buffer) -> %r, model %s' % (got[:70], win.hex()))
+            if k:
+                x = bytes([win[rnd.randrange(k)]])
+                if x not in b:
+                    self.bad('iteration', '%r in buffer is False' % x)
+        elif what == 'keepalive':
+            # the view is the only reference to its memory's owner
+            data = rnd.randbytes(rnd.choice([1, 7, 64, 300]))
+            how = rnd.choice(['buffer_of_new', 'from_buffer_of_temp', 'memoryview_of_buffer'])
+            self.rep.stat('keepalive_' + how)
+            if how == 'buffer_of_new':
+                v = self.ffi.buffer(self.ffi.new('char[]', data), len(data))
+            elif how == 'memoryview_of_buffer':
+                v = memoryview(self.ffi.buffer(self.ffi.new('char[]', data), len(data)))
+            else:
+                v = self.ffi.buffer(self.ffi.from_buffer(bytearray(data)))
+            junk = [bytearray(len(data)) for _ in range(4)]
+            if bytes(v) != data:
+                self.bad('view-does-not-keep-memory-alive', '%s of %d bytes reads other bytes after '
+                         'the owner was dropped' % (how, len(data)))
+            del junk
+        elif what == 'reversed':
+            got = [b[x] for x in range(-1, -k - 1, -1)]
+            if got != [bytes([x]) for x in reversed(win)]:
+                self.bad('index', 'negative indices -1..-%d -> %r, model %s' % (k, got[:70], win.hex()))
+        elif what == 'bytearray':
+            if bytearray(b) != win:
+                self.bad('bytes', 'bytearray(buffer) differs from model')
+        elif what == 'memoryview':
+            mv = memoryview(b)
+            if mv.nbytes != k or mv.readonly or mv.tobytes() != win or mv.itemsize != 1:
+                self.bad('memoryview-export', 'memoryview(buffer): nbytes %d readonly %r bytes %s, '
+                         'expected %d bytes %s' % (mv.nbytes, mv.readonly, mv.tobytes().hex(), k, win.hex()))
+        elif what == 'memoryview_write':
+            mv = memoryview(b)
+            if k:
+                i = rnd.randrange(k)
+                j = rnd.randint(i, k)
+                data = rnd.randbytes(j - i)
+                mv[i:j] = data
+                m[off + i:off + j] = data
+        elif what == 'index_obj':
+            i = self.rand_idx(k)
+            if i is None:
+                i = -1
+            try:
+                ref = bytes([win[i]])
+            except (IndexError, OverflowError):
+                ref = IndexError
+            try:
+                got = b[Idx(i)]
+            except IndexError:
+                got = IndexError
+            if got != ref:
+                self.bad('index', 'buffer[<__index__ %d>] (len %d) -> %r, model %r' % (i, k, got, ref))
+        elif what == 'slice_obj':
+            i, j = rnd.randint(-k - 3, k + 3), rnd.randint(-k - 3, k + 3)
+            ref = win[i:j]
+            got = b[Idx(i):Idx(j)]
+            if got != ref:
+                self.bad('slice', 'buffer[<__index__ %d>:<__index__ %d>] -> %r, model %r' % (i, j, got, ref))
+        else:
+            for bad in ('a', 1.0, None, (0,), b'\x00'):
+                try:
+                    got = b[bad]
+                except TypeError:
+                    continue
+                except Exception as e:
+                    got = type(e).__name__
+                self.bad('index-non-integer', 'buffer[%r] -> %r instead of TypeError' % (bad, got))
+        return key
+
+    def op_from_buffer(self, F, key):
+        rnd, m = self.rnd, self.model
+        T = rnd.choice(TYPES if F is self.ffi else [t for t in TYPES if not t.startswith('struct')])
+        sz = SIZES[T]
+        wo, wk = self.window()
+        shape = rnd.choice(['open', 'open', 'open', 'open2d', 'ptr'])
+        inner = rnd.choice([1, 2, 3]) if shape == 'open2d' else 1
+        decl = {'open': T + '[]', 'open2d': '%s[][%d]' % (T, inner), 'ptr': T + ' *'}[shape]
+        writable = rnd.random() < 0.8
+        src, srck = self.pywindow(F, wo, wk, writable=writable)
+        rw = rnd.choice([None, False, True])
+        key += (decl, wo, wk, srck, rw)
+        self.rep.stat('from_buffer_' + shape)
+        self.rep.stat('from_buffer_src_' + srck)
+        self.rep.stat('from_buffer_entry_' + ('cffi.FFI' if F is self.ffi else '_cffi_backend.FFI'))
+        how = rnd.choice(['positional', 'keyword'])
+        try:
+            if how == 'keyword':
+                self.rep.stat('from_buffer_keyword_call')
+                if rw is None:
+                    c2 = F.from_buffer(cdecl=decl, python_buffer=src)
+                else:
+                    c2 = F.from_buffer(cdecl=decl, python_buffer=src, require_writable=rw)
+            elif rw is None:
+                if decl == 'char[]' and rnd.random() < 0.5:
+                    c2 = F.from_buffer(src)
+                else:
+                    c2 = F.from_buffer(decl, src)
+            else:
+                c2 = F.from_buffer(decl, src, rw)
+            res = 'ok'
+        except Exception as e:
+            res = '%s: %s' % (type(e).__name__, e)
+        if rw and not writable:
+            self.rep.stat('from_buffer_require_writable_on_readonly')
+            if res == 'ok':
+                self.bad('require_writable', "from_buffer('%s', <read-only %s>, require_writable=True) "
+                         'accepted' % (decl, srck))
+            return key
+        if res != 'ok':
+            self.bad('from_buffer-raised', "from_buffer('%s', <%s of %d bytes>, require_writable=%r) "
+                     'raised %s' % (decl, srck, wk, rw, res))
+            return key
+        if rw:
+            self.rep.stat('from_buffer_require_writable_on_writable')
+        isz = sz * inner
+        if shape != 'ptr':
+            if len(c2) != wk // isz:
+                self.bad('from_buffer-length', "len(from_buffer('%s', <%s of %d bytes>)) = %d" %
+                         (decl, srck, wk, len(c2)))
+                return key
+            nitems = wk // isz
+        else:
+            nitems = wk // isz
+            try:
+                len(c2)
+                self.bad('from_buffer-length', "from_buffer('%s') has a len()" % decl)
+            except TypeError:
+                pass
+        if int(self.ffi.cast('uintptr_t', c2)) != int(self.ffi.cast('uintptr_t', self.cbase)) + wo \
+                and wk:
+            self.bad('from_buffer-alias', "from_buffer('%s', <%s window +%d>) does not alias the "
+                     'object memory' % (decl, srck, wo))
+            return key
+        if nitems:
+            idx = rnd.randrange(nitems)
+            raw = bytes(self.ffi.buffer(self.ffi.cast('char *', c2) + idx * isz, isz))
+            if raw != bytes(m[wo + idx * isz:wo + (idx + 1) * isz]):
+                self.bad('from_buffer-alias', 'from_buffer item bytes differ from the object')
+            if shape != 'ptr':
+                whole = bytes(self.ffi.buffer(c2))
+                if whole != bytes(m[wo:wo + nitems * isz]):
+                    self.bad('from_buffer-alias', "ffi.buffer(from_buffer('%s', <%d bytes>)) is %d bytes "
+                             '%s, expected %d bytes' % (decl, wk, len(whole), whole.hex()[:80], nitems * isz))
+            if writable:
+                nb = rnd.randbytes(isz)
+                self.ffi.buffer(self.ffi.cast('char *', c2) + idx * isz, isz)[:] = nb
+                m[wo + idx * isz:wo + (idx + 1) * isz] = nb
+        return key
+
+    def op_from_buffer_misc(self, F, key):
+        rnd, m = self.rnd, self.model
+        what = rnd.choice(['bytes', 'bytes_rw', 'str', 'non_array_ctype', 'non_buffer', 'noncontiguous'])
+        key += (what,)
+        self.rep.stat('from_buffer_misc_' + what)
+        ro = bytes(m)
+        if what == 'bytes':
+            T = rnd.choice(['char', 'short', 'int', 'long long'])
+            try:
+                c3 = F.from_buffer(ro) if T == 'char' and rnd.random() < 0.5 else \
+                    F.from_buffer(T + '[]', ro)
+            except Exception as e:
+                self.bad('from_buffer-raised', 'from_buffer(%s[], bytes) raised %s' % (T, type(e).__name__))
+                return key
+            n = len(ro) // SIZES[T]
+            if len(c3) != n or bytes(self.ffi.buffer(c3)) != ro[:n * SIZES[T]]:
+                self.bad('from_buffer-length', 'from_buffer(%s[], bytes) wrong' % T)
+            return key
+        try:
+            if what == 'bytes_rw':
+                if rnd.random() < 0.5:
+                    F.from_buffer(ro, require_writable=True)
+                else:
+                    F.from_buffer('char[]', ro, True)
+                self.bad('require_writable', 'from_buffer(bytes, require_writable=True) accepted')
+            elif what == 'str':
+                F.from_buffer('char[]', ro.decode('latin-1'))
+                self.bad('from_buffer-invalid-accepted', 'from_buffer(str) accepted')
+            elif what == 'non_array_ctype':
+                F.from_buffer(rnd.choice(['int', 'char', 'double']), ro)
+                self.bad('from_buffer-invalid-accepted', 'from_buffer(<primitive ctype>) accepted')
+            elif what == 'non_buffer':
+                F.from_buffer('char[]', rnd.choice([5, None, [1, 2], 1.5]))
+                self.bad('from_buffer-invalid-accepted', 'from_buffer(<non-buffer>) accepted')
+            elif self.N >= 4:
+                F.from_buffer('char[]', memoryview(F.buffer(self.cbase, self.N))[::2])
+                self.bad('from_buffer-invalid-accepted', 'from_buffer(<non-contiguous>) accepted')
+        except Exception:
+            pass
+        return key
+
+    def op_fixed_from_buffer(self, F, key):
+        rnd, m = self.rnd, self.model
+        T = rnd.choice([t for t in TYPES if F is self.ffi or not t.startswith('struct')])
+        sz = SIZES[T]
+        wo, wk = self.window()
+        inner = rnd.choice([None, None, 1, 2, 3])
+        isz = sz * (inner or 1)
+        cnt = rnd.choice([wk // isz, wk // isz + 1, max(0, wk // isz - 1),
+                          rnd.randint(0, 70)])
+        decl = '%s[%d]' % (T, cnt) + ('[%d]' % inner if inner else '')
+        src, srck = self.pywindow(F, wo, wk)
+        key += (decl, wo, wk, srck)
+        self.rep.stat('fixed_from_buffer_2d' if inner else 'fixed_from_buffer_1d')
+        try:
+            c2 = F.from_buffer(decl, src)
+            res = 'ok'
+        except ValueError:
+            res = 'ValueError'
+        except Exception as e:
+            res = type(e).__name__
+        if cnt * isz > wk:
+            self.rep.stat('fixed_from_buffer_too_small')
+            if res != 'ValueError':
+                self.bad('fixed-from_buffer-too-small', "from_buffer('%s', <%d bytes>): %s"
+                         % (decl, wk, res))
+        elif res != 'ok':
+            self.bad('fixed-from_buffer-rejected', "from_buffer('%s', <%d bytes>): %s" %
+                     (decl, wk, res))
+        elif len(c2) != cnt:
+            self.bad('from_buffer-length', 'fixed from_buffer length %d != %d' % (len(c2), cnt))
+        else:
+            self.rep.stat('fixed_from_buffer_fits')
+            whole = bytes(self.ffi.buffer(c2))
+            if whole != bytes(m[wo:wo + cnt * isz]):
+                self.bad('from_buffer-alias', "ffi.buffer(from_buffer('%s', <%d bytes>)) is %d bytes %s"
+                         % (decl, wk, len(whole), whole.hex()[:80]))
+            if cnt:
+                nb = rnd.randbytes(isz)
+                idx = rnd.randrange(cnt)
+                self.ffi.buffer(c2)[idx * isz:(idx + 1) * isz] = nb
+                m[wo + idx * isz:wo + (idx + 1) * isz] = nb
+        return key
+
+    def op_memmove(self, F, key):
+        rnd, ffi, m = self.rnd, self.ffi, self.model
+        n = rnd.randint(0, self.N)
+        d = rnd.randint(0, self.N - n)
+        s = rnd.randint(0, self.N - n)
+        dk = rnd.choice(['cdata', 'cdata_typed', 'buffer', 'obj', 'memoryview', 'pywindow', 'frombuf'])
+        sk = rnd.choice(['cdata', 'cdata_typed', 'buffer', 'obj', 'bytes', 'other', 'otherbuf',
+                         'pywindow', 'ro_pywindow', 'frombuf', 'array_items'])
+        base = self.cbase
+        # destination
+        if dk == 'cdata':
+            dst = base + d
+        elif dk == 'cdata_typed':
+            dst = self.ptr(F, d)
+        elif dk == 'buffer':
+            dst = F.buffer(base + d, self.N - d)
+        elif dk == 'obj' and self.obj is not None and d == 0:
+            dst = self.obj
+        elif dk == 'pywindow':
+            dst, x = self.pywindow(F, d, self.N - d)
+            dk = 'pywindow_' + x
+        elif dk == 'frombuf':
+            dst = F.from_buffer(rnd.choice(['char[]', 'short[]', 'int *']), F.buffer(base + d, self.N - d))
+        else:
+            dk = 'memoryview'
+            dst = memoryview(ffi.buffer(base + d, self.N - d))
+        if sk == 'cdata':
+            src, data = base + s, bytes(m[s:s + n])
+        elif sk == 'cdata_typed':
+            src, data = self.ptr(F, s), bytes(m[s:s + n])
+        elif sk == 'buffer':
+            src, data = F.buffer(base + s, self.N - s), bytes(m[s:s + n])
+        elif sk == 'obj' and self.obj is not None and s == 0:
+            src, data = self.obj, bytes(m[0:n])
+        elif sk in ('pywindow', 'ro_pywindow'):
+            src, x = self.pywindow(F, s, self.N - s, writable=sk == 'pywindow')
+            sk, data = 'pywindow_' + x, bytes(m[s:s + n])
+        elif sk == 'frombuf':
+            src = F.from_buffer(rnd.choice(['char[]', 'short[]', 'int *']), F.buffer(base + s, self.N - s))
+            data = bytes(m[s:s + n])
+        elif sk == 'bytes':
+            data = rnd.randbytes(n)
+            src = data + b'xyz'
+        elif sk == 'array_items':
+            a = array.array(rnd.choice('HIQ'))
+            a.frombytes(rnd.randbytes((self.N + 15) // 8 * 8))
+            src, data = a, a.tobytes()[:n]
+        elif sk == 'otherbuf':
+            src, data = F.buffer(self.other, self.OT), bytes(ffi.buffer(self.other, n))
+        else:
+            sk = 'other'
+            so = rnd.randint(0, self.OT - n)
+            src, data = self.other + so, bytes(ffi.buffer(self.other + so, n))
+        key = ('memmove', d, s, n, dk, sk)
+        self.rep.stat('memmove_entry_' + ('cffi.FFI' if F is ffi else '_cffi_backend.FFI'))
+        try:
+            if rnd.random() < 0.2:
+                self.rep.stat('memmove_keyword_call')
+                F.memmove(dest=dst, src=src, n=n)
+            else:
+                F.memmove(dst, src, n)
+        except Exception as e:
+            self.bad('memmove-raised', 'memmove(<%s>+%d, <%s>+%d, %d) raised %s: %s' %
+                     (dk, d, sk, s, n, type(e).__name__, e))
+        else:
+            m[d:d + n] = data
+        aliased = sk in ('cdata', 'cdata_typed', 'buffer', 'obj', 'frombuf') or sk.startswith('pywindow')
+        self.rep.stat('memmove_overlapping' if aliased and n and abs(d - s) < n else 'memmove_disjoint')
+        self.rep.stat('memmove_dst_' + dk)
+        self.rep.stat('memmove_src_' + sk)
+        return key
+
+    def op_memmove_bad(self, F, key):
+        """calls that must fail and leave every byte alone"""
+        rnd, m = self.rnd, self.model
+        what = rnd.choice(['negative_n', 'negative_n', 'readonly_bytes', 'readonly_view', 'readonly_view',
+                           'primitive_dst', 'primitive_src', 'str_src', 'non_buffer_dst',
+                           'noncontiguous'])
+        key += (what,)
+        self.rep.stat('memmove_bad_' + what)
+        wo, wk = self.window()
+        n = rnd.randint(0, wk)
+        if wk and rnd.random() < 0.7:
+            n = rnd.randint(1, wk)
+        src = rnd.randbytes(max(n, 8))
+        frozen = None
+        try:
+            if what == 'negative_n':
+                dst, _ = self.pywindow(F, wo, wk)
+                if rnd.random() < 0.5:
+                    dst = self.cbase + wo
+                F.memmove(dst, src, rnd.choice([-1, -1, -2, -wk - 1, -2 ** 63, -2 ** 31]))
+            elif what == 'readonly_bytes':
+                frozen = bytes(m[wo:wo + wk]) + b'?'
+                keep = bytes(bytearray(frozen))
+                F.memmove(frozen, src, n)
+            elif what == 'readonly_view':
+                dst, _ = self.pywindow(F, wo, wk, writable=False)
+                F.memmove(dst, src, n)
+            elif what == 'primitive_dst':
+                F.memmove(F.cast('long long', 0), src, min(n, 8))
+            elif what == 'primitive_src':
+                F.memmove(self.cbase + wo, F.cast('long long', 0), min(n, 8))
+            elif what == 'str_src':
+                F.memmove(self.cbase + wo, 'x' * (n + 1), n)
+            elif what == 'non_buffer_dst':
+                F.memmove(rnd.choice([None, 5, [0] * 9]), src, n)
+            else:
+                if wk < 4:
+                    return key
+                n = min(n, wk // 2)
+                F.memmove(memoryview(F.buffer(self.cbase + wo, wk))[::2], src, n)
+            if what in ('primitive_dst', 'primitive_src'):
+                n = min(n, 8)
+            if n == 0 and what != 'negative_n':
+                # copying nothing into / from anything is not required to fail
+                self.rep.stat('memmove_bad_zero_bytes_not_judged')
+                return key
+            mech = 'memmove-negative-size-accepted' if what == 'negative_n' else \
+                'memmove-readonly-dest-accepted' if what.startswith('readonly') else \
+                'memmove-invalid-accepted'
+            self.bad(mech, 'memmove (%s, window +%d len %d, n=%d) did not raise' % (what, wo, wk, n))
+        except Exception as e:
+            if what == 'negative_n' and not isinstance(e, (ValueError, OverflowError)):
+                self.bad('memmove-negative-size-accepted', 'memmove with negative n raised %s: %s' %
+                         (type(e).__name__, e))
+        if frozen is not None and frozen != keep:
+            self.bad('memmove-readonly-dest-accepted', 'memmove changed a bytes object')
+        return key          # check_mem: nothing may have changed
+
+    def op_compare_other(self, b, off, k, key):
+        rnd, m = self.rnd, self.model
+        w = bytes(m[off:off + k])
+        o = bytearray(w)
+        r = rnd.random()
+        if r < 0.3 and k:
+            o[rnd.randrange(k)] ^= 1 << rnd.randrange(8)
+        elif r < 0.5:
+            o = o[:rnd.randint(0, k)]
+        elif r < 0.65:
+            o += bytes([rnd.getrandbits(8)])
+        ob = bytes(o)
+        kind = rnd.choice(['bytearray', 'memoryview', 'arrayB', 'bytes', 'buffer', 'nonbuffer'])
+        key += (kind,)
+        self.rep.stat('compare_' + kind)
+        ops = (('==', lambda a, c: a == c), ('!=', lambda a, c: a != c), ('<', lambda a, c: a < c),
+               ('<=', lambda a, c: a <= c), ('>', lambda a, c: a > c), ('>=', lambda a, c: a >= c))
+        if kind == 'nonbuffer':
+            for other in ('abc', 5, None, [1]):
+                if (b == other) is not False or (b != other) is not True:
+                    self.bad('compare', 'buffer == %r is not False' % (other,))
+                try:
+                    b < other
+                    self.bad('compare', 'buffer < %r did not raise' % (other,))
+                except TypeError:
+                    pass
+            return key
+        if kind == 'buffer':
+            # another ffi.buffer over independent memory holding the bytes to compare with
+            tmp = self.ffi.new('char[]', len(ob) + 1)
+            self.ffi.buffer(tmp, len(ob))[:] = ob
+            other = self.ffi.buffer(tmp, len(ob))
+        else:
+            other = {'bytearray': bytearray, 'memoryview': memoryview, 'bytes': bytes,
+                     'arrayB': lambda x: array.array('B', x)}[kind](ob)
+        for name, f in ops:
+            if f(b, other) != f(w, ob):
+                self.bad('compare', 'buffer %s %s %s %s -> %r' % (w.hex(), name, kind, ob.hex(), f(b, other)))
+            if kind in ('bytes', 'bytearray', 'buffer'):
+                # reflected operand order
+                if f(other, b) != f(ob, w):
+                    self.bad('compare', '%s %s %s buffer %s -> %r' % (kind, ob.hex(), name, w.hex(), f(other, b)))
+        return key
+
+    # ------------------------------------------------------------------
     def step(self):
         rnd, ffi = self.rnd, self.ffi
         op = rnd.choice(['len', 'index', 'slice', 'slice', 'setitem', 'setslice', 'setslice',
                          'setslice_wrong', 'compare', 'from_buffer', 'memmove', 'memmove',
-                         'fixed_from_buffer', 'bytes'])
+                         'fixed_from_buffer', 'bytes',
+                         'default_size', 'slice_step', 'setitem_bad', 'views', 'from_buffer_misc',
+                         'memmove_bad', 'compare_other', 'setslice_items_wrong', 'from_buffer', 'memmove'])
+        F = ffi if rnd.random() < 0.5 else self.ffi2
         off, k = self.window()
-        base = self.c if self.kind == 'cdata' else ffi.cast('char *', self.c)
-        b = ffi.buffer(base + off, k)
+        base = self.c if self.kind == 'cdata' else self.cbase
+        if rnd.random() < 0.5:
+            b = ffi.buffer(base + off, k)
+        else:
+            b = self.mkbuffer(F, off, k)
         m = self.model
         win = lambda: bytes(m[off:off + k])
         key = (op, off, k)
         if op == 'len':
             if len(b) != k:
                 self.bad('len', 'len(buffer(p+%d, %d)) = %d' % (off, k, len(b)))
-            if off == 0 and self.kind == 'cdata':
-                if len(ffi.buffer(self.c)) != self.N:
-                    self.bad('len', 'len(buffer(array)) = %d' % len(ffi.buffer(self.c)))
+            if off == 0:
+                if len(F.buffer(self.c)) != self.N:
+                    self.bad('len', 'len(buffer(array)) = %d' % len(F.buffer(self.c)))
         elif op == 'bytes':
             if bytes(b) != win() or b[:] != win():
                 self.bad('bytes', 'bytes(buffer) = %s, expected %s' % (bytes(b).hex(), win().hex()))
@@ -204,7 +916,11 @@ class H(object):
             want = len(data)
             key += (i, j, want, sk)
             try:
-                b[i:j] = src
+                if rnd.random() < 0.15 and i is not None and j is not None and abs(i) < 2 ** 62 \
+                        and abs(j) < 2 ** 62:
+                    b[Idx(i):Idx(j)] = src
+                else:
+                    b[i:j] = src
                 res = 'ok'
             except ValueError:
                 res = 'ValueError'
@@ -225,9 +941,45 @@ class H(object):
                     self.bad('setslice-wrong-exception', 'length-changing slice assignment raised '
                              + res)
                 self.rep.stat('setslice_wrong_length')
+        elif op == 'setslice_items_wrong':
+            # sources whose ITEM count equals the slice length but whose byte length does not
+            # (and the other way round), and sources that are no buffers at all
+            i, j = self.rand_idx(k), self.rand_idx(k)
+            st, en, _ = slice(i, j).indices(k)
+            en = max(st, en)
+            if en == st and k and rnd.random() < 0.8:
+                i = st = rnd.randint(0, k - 1)
+                j = en = rnd.randint(st + 1, k)
+            cnt = en - st
+            what = rnd.choice(['items_equal_slice', 'items_equal_slice', 'str', 'int', 'none'])
+            key += (i, j, what)
+            if what == 'items_equal_slice':
+                code = rnd.choice('HIQ')
+                a = array.array(code, list(rnd.randbytes(cnt)))
+                src = a if rnd.random() < 0.5 else memoryview(a)
+                if cnt == 0:
+                    what = 'items_empty'
+            else:
+                src = {'str': 'x' * cnt, 'int': cnt, 'none': None}[what]
+            self.rep.stat('setslice_' + what)
+            try:
+                b[i:j] = src
+                res = 'ok'
+            except (ValueError, TypeError) as e:
+                res = type(e).__name__
+            except Exception as e:
+                res = type(e).__name__ + ': ' + str(e)
+            if what == 'items_empty':
+                if res != 'ok':
+                    self.bad('setslice-rejected', 'empty slice = empty array raised ' + res)
+            elif res == 'ok':
+                self.bad('setslice-length-change-accepted' if what == 'items_equal_slice' else
+                         'setslice-non-buffer-accepted', 'buffer[%r:%r] = <%s, %d items> accepted for a '
+                         'slice of %d bytes' % (i, j, what, cnt, cnt))
+            elif what == 'items_equal_slice' and res != 'ValueError':
+                self.bad('setslice-wrong-exception', 'length-changing slice assignment raised ' + res)
         elif op == 'compare':
-            other = win() if rnd.random() < 0.4 else bytes(rnd.getrandbits(8) for _ in
-                                                           range(rnd.choice([k, k, max(0, k - 1), k + 1])))
+            other = win() if rnd.random() < 0.4 else rnd.randbytes(rnd.choice([k, k, max(0, k - 1), k + 1]))
             if rnd.random() < 0.3 and k:
                 o = bytearray(win())
                 o[rnd.randrange(k)] ^= 1 << rnd.randrange(8)
@@ -239,105 +991,46 @@ class H(object):
                 if f(b, other) != f(w, other):
                     self.bad('compare', 'buffer %s %s bytes %s -> %r' %
                              (w.hex(), name, other.hex(), f(b, other)))
-            ob = ffi.buffer(self.other, min(k, 80))
+            ob = ffi.buffer(self.other, k)
             if (b == ob) != (w == bytes(ob)):
                 self.bad('compare', 'buffer == buffer wrong')
+        elif op == 'compare_other':
+            key = self.op_compare_other(b, off, k, key)
         elif op == 'from_buffer':
-            T, sz = rnd.choice([('char', 1), ('short', 2), ('int', 4), ('double', 8),
-                                ('unsigned char', 1), ('long long', 8)])
-            key += (T,)
-            src = self.obj if self.obj is not None else ffi.buffer(self.c, self.N)
-            try:
-                c2 = ffi.from_buffer(T + '[]', src)
-            except Exception as e:
-                self.bad('from_buffer-raised', "from_buffer('%s[]') raised %s: %s" %
-                         (T, type(e).__name__, e))
-                return key
-            if len(c2) != self.N // sz:
-                self.bad('from_buffer-length', "len(from_buffer('%s[]', <%d bytes>)) = %d" %
-                         (T, self.N, len(c2)))
-            if len(c2):
-                idx = rnd.randrange(len(c2))
-                raw = bytes(ffi.buffer(c2)[idx * sz:(idx + 1) * sz])
-                if raw != bytes(m[idx * sz:(idx + 1) * sz]):
-                    self.bad('from_buffer-alias', 'from_buffer item bytes differ from the object')
-                nb = bytes(rnd.getrandbits(8) for _ in range(sz))
-                ffi.buffer(c2)[idx * sz:(idx + 1) * sz] = nb
-                m[idx * sz:(idx + 1) * sz] = nb
-            if int(ffi.cast('uintptr_t', c2)) != int(ffi.cast('uintptr_t', self.c)):
-                self.bad('from_buffer-alias', 'from_buffer does not alias the object memory')
-            # read-only objects
-            ro = bytes(m)
-            c3 = ffi.from_buffer(ro)
-            if len(c3) != len(ro) or bytes(ffi.buffer(c3)) != ro:
-                self.bad('from_buffer-length', 'from_buffer(bytes) wrong')
-            try:
-                ffi.from_buffer(ro, require_writable=True)
-                self.bad('require_writable', 'from_buffer(bytes, require_writable=True) accepted')
-            except Exception:
-                pass
+            key = self.op_from_buffer(F, key[:1])
+        elif op == 'from_buffer_misc':
+            key = self.op_from_buffer_misc(F, key[:1])
         elif op == 'fixed_from_buffer':
-            T, sz = rnd.choice([('char', 1), ('short', 2), ('int', 4), ('long long', 8)])
-            cnt = rnd.choice([self.N // sz, self.N // sz + 1, max(0, self.N // sz - 1),
-                              rnd.randint(0, 70)])
-            key += (T, cnt)
-            src = self.obj if self.obj is not None else ffi.buffer(self.c, self.N)
-            try:
-                c2 = ffi.from_buffer('%s[%d]' % (T, cnt), src)
-                res = 'ok'
-            except ValueError:
-                res = 'ValueError'
-            except Exception as e:
-                res = type(e).__name__
-            if cnt * sz > self.N:
-                if res != 'ValueError':
-                    self.bad('fixed-from_buffer-too-small', "from_buffer('%s[%d]', <%d bytes>): %s"
-                             % (T, cnt, self.N, res))
-            elif res != 'ok':
-                self.bad('fixed-from_buffer-rejected', "from_buffer('%s[%d]', <%d bytes>): %s" %
-                         (T, cnt, self.N, res))
-            elif len(c2) != cnt:
-                self.bad('from_buffer-length', 'fixed from_buffer length %d != %d' % (len(c2), cnt))
+            key = self.op_fixed_from_buffer(F, key[:1])
         elif op == 'memmove':
-            n = rnd.randint(0, self.N)
-            d = rnd.randint(0, self.N - n)
-            s = rnd.randint(0, self.N - n)
-            dk = rnd.choice(['cdata', 'buffer', 'obj', 'memoryview'])
-            sk = rnd.choice(['cdata', 'buffer', 'obj', 'bytes', 'other', 'otherbuf'])
-            key = (op, d, s, n, dk, sk)
-            # destination
-            if dk == 'cdata':
-                dst = base + d
-            elif dk == 'buffer':
-                dst = ffi.buffer(base + d, self.N - d)
-            elif dk == 'obj' and self.obj is not None and d == 0:
-                dst = self.obj
-            else:
-                dst = memoryview(ffi.buffer(base + d, self.N - d))
-            if sk == 'cdata':
-                src, data = base + s, bytes(m[s:s + n])
-            elif sk == 'buffer':
-                src, data = ffi.buffer(base + s, self.N - s), bytes(m[s:s + n])
-            elif sk == 'obj' and self.obj is not None and s == 0:
-                src, data = self.obj, bytes(m[0:n])
-            elif sk == 'bytes':
-                data = bytes(rnd.getrandbits(8) for _ in range(n))
-                src = data + b'xyz'
-            elif sk == 'otherbuf':
-                src, data = ffi.buffer(self.other, 80), bytes(ffi.buffer(self.other, n))
-            else:
-                so = rnd.randint(0, 80 - n)
-                src, data = self.other + so, bytes(ffi.buffer(self.other + so, n))
-            try:
-                ffi.memmove(dst, src, n)
-            except Exception as e:
-                self.bad('memmove-raised', 'memmove(<%s>+%d, <%s>+%d, %d) raised %s: %s' %
-                         (dk, d, sk, s, n, type(e).__name__, e))
-            else:
-                m[d:d + n] = data
-            self.rep.stat('memmove_overlapping' if sk in ('cdata', 'buffer', 'obj') and n and
-                          abs(d - s) < n else 'memmove_disjoint')
+            key = self.op_memmove(F, key)
+        elif op == 'memmove_bad':
+            key = self.op_memmove_bad(F, key[:1])
+        elif op == 'default_size':
+            key = self.op_default_size(F, key[:1])
+        elif op == 'slice_step':
+            key = self.op_slice_step(b, off, k, key)
+        elif op == 'setitem_bad':
+            key = self.op_setitem_bad(b, off, k, key)
+        elif op == 'views':
+            key = self.op_views(b, off, k, key)
         return key
+
+    def finish(self):
+        """the object stays pinned (cannot be resized) for as long as a from_buffer cdata
+        aliases it; otherwise the alias would dangle"""
+        if self.kind != 'bytearray' or self.c is None:
+            return
+        self.rep.stat('export_pinned_checked')
+        try:
+            self.obj.extend(b'\x00' * 4096)
+        except BufferError:
+            return
+        except Exception as e:
+            self.bad('from_buffer-export-not-held', 'resizing the exporter raised %s' % type(e).__name__)
+            return
+        self.bad('from_buffer-export-not-held', 'bytearray was resized while a from_buffer cdata '
+                 'aliases it')
 
 
 def child_case(st, case):
@@ -346,7 +1039,7 @@ def child_case(st, case):
     rep = core.ChildRep()
     for seed in case['seeds']:
         rnd = random.Random(seed)
-        h = H(ffi, rnd, rep, seed)
+        h = H(ffi, rnd, rep, seed, st.get('ffi2'))
         rep.stat('histories')
         rep.stat('kind_' + h.kind)
         for _ in range(case['ops']):
@@ -360,6 +1053,7 @@ def child_case(st, case):
             h.check_mem(repr(key))
             rep.case((h.kind, h.N, key), nontrivial=key[0] != 'len',
                      sample={'memory': h.desc(), 'op': repr(key)})
+        h.finish()
         # the export must end when the cdata goes away
         if h.kind == 'bytearray':
             h.c = None
